@@ -237,4 +237,47 @@ class C13d(Obligation):
             ctx.check(len(UserDict.log) == 1, 'unsafe mode may execute it')
 
 
-OBLIGATIONS = [C13a, C13b, C13c, C13d]
+class IterDict(dict):
+    """a dict subclass whose iteration protocol is user code (and lies about the keys)"""
+    log = []
+
+    def __iter__(self):
+        IterDict.log.append('__iter__')
+        return iter(['not-a-key'])
+
+    def __len__(self):
+        IterDict.log.append('__len__')
+        return 0
+
+    def __bool__(self):
+        IterDict.log.append('__bool__')
+        return False
+
+
+class C13e(Obligation):
+    id = 'C13.e'
+    title = 'listing the keys of a dict-like object (completion inside obj["...) never runs a user-defined __iter__/__next__/__len__/__bool__ and lists the real keys'
+    pattern = 'P5 decision table over dict kinds x number of keys'
+    assumptions = ('objects: a plain dict and a dict subclass overriding __iter__/__len__/__bool__, holding n<=3 or 60 keys (symbolic); '
+                   'the 50-keys cut-off is part of the expected answer',)
+
+    def scenario(self, ctx, cfg):
+        del IterDict.log[:]
+        user = ctx.flag('dict_subclass_with_user_iteration')
+        n = ctx.oneof('n_keys', (0, 1, 2, 3, 60))
+        ctx.int('unused')
+        keys = ['key%d' % i for i in range(n)]
+        obj = (IterDict if user else dict)((k, i) for i, k in enumerate(keys))
+        acc = DirectObjectAccess.__new__(DirectObjectAccess)
+        acc._inference_state = None
+        acc._obj = obj
+        acc._create_access_path = lambda o: ('PATH', o)
+        ctx.force(DirectObjectAccess.get_key_paths)
+        out = ctx.call(acc.get_key_paths)
+        ctx.check(out.exc is None, 'never raises')
+        ctx.check(IterDict.log == [], 'no user-defined __iter__/__len__/__bool__ runs')
+        if out.exc is None:
+            ctx.check(out.value == [('PATH', k) for k in keys[:51]], 'the real keys are listed, in order, at most 51 of them')
+
+
+OBLIGATIONS = [C13a, C13b, C13c, C13d, C13e]
